@@ -17,6 +17,16 @@ def make_cases(rng, tier, n):
             c["ops"] = []
             pipe = False
         names = [sp for sp, st in c["stages"]]
+        if not pipe and rng.random() < 0.15:
+            # a fresh clone: nothing committed yet, the cache directory does not exist; read-only commands must not create it
+            c["cache"] = rng.choice(["rel", "abs"])
+            c["ops"] = [("rmcachedir",)]
+            for _ in range(3):
+                c["ops"].append(rng.choice([("status", []), ("graph", []), ("status", [rng.choice(names)]), ("graph", [rng.choice(names)])]))
+            c["tail_ops"] = []
+            c["hist_info"] = dict(commits=0)
+            cases.append(c)
+            continue
         base_ops = c["ops"]
         gen.gen_history(rng, c, rng.randrange(2, 7), allow=("commit", "checkout", "edit", "add", "del", "rmart", "push", "run"))
         c["ops"] = base_ops + c["ops"]
